@@ -86,6 +86,24 @@ pub fn build(quick: bool) -> Check {
         let core: Vec<Action> = alpha.iter().copied().filter(|a| !matches!(a, Action::Long { chunk: 3..=9, .. } | Action::Long { param: 5, .. } | Action::Long { chunk: 0, id: 2, .. })).collect();
         families.push(Box::new(Tree { label: "long-data-core".into(), prefix: prefix.clone(), alpha: core, depth: 6 }));
     }
+    // chunks for both parameters of both statements interleaved with executions of either: the
+    // histories in which a buffer, cursor or index shared between statements/parameters goes stale
+    let mut inter: Vec<Action> = Vec::new();
+    for id in [1u32, 2] {
+        inter.push(Action::Long { id, param: 0, chunk: 1 });
+        inter.push(Action::Long { id, param: 1, chunk: 2 });
+        inter.push(Action::Exec { id, bind: Bind::C, null_first: false, shim_ignores: 0 });
+    }
+    for d in if quick { 5..=7 } else { 5..=9 } {
+        families.push(Box::new(Tree { label: "long-data-interleavings".into(), prefix: prefix.clone(), alpha: inter.clone(), depth: d }));
+    }
+    // ... and with the statements closed and prepared again in between
+    let mut inter2 = inter.clone();
+    inter2.push(Action::Close { id: 1 });
+    inter2.push(Action::Prepare { id: 1, n: 2, ok: true });
+    for d in if quick { 5..=6 } else { 5..=7 } {
+        families.push(Box::new(Tree { label: "long-data-interleavings-close-prepare".into(), prefix: prefix.clone(), alpha: inter2.clone(), depth: d }));
+    }
     families.push(Box::new(Bfs {
         label: "long-data".into(),
         prefix: prefix.clone(),
@@ -99,7 +117,7 @@ pub fn build(quick: bool) -> Check {
     Check {
         id: "C17",
         level: "model_checking",
-        rule: format!("two prepared statements of 2 parameters; histories over {} actions: LONG_DATA(id 1|2, parameter 0|1|out of range, chunk \"\"|\"xy\"|\"z\"; 2000- and 12000-byte chunks), EXECUTE(bind LONG | VAR_STRING | MYSQL_TYPE_NULL | reuse; first parameter NULL), CLOSE, re-PREPARE; the client omits inline bytes for parameters with pending long data. Full tree to depth {} (thorough: depth 6 over the alphabet without the large chunks) plus BFS over model states (pending data capped at 4 bytes per parameter) with two witnesses; plus a chunk of 2*(2^24-1)+5 bytes; plus long data followed by 8..600 inline executions of the same statement; 2..1000 chunks streamed round-robin to 2-3 parameters; 2000/12000/70000-byte buffers abandoned by CLOSE or emptied by EXECUTE followed by small long data; pairs of statement ids that agree in their low 8/16/24 bits or differ only in the top bit. Oracle: the parameter is the in-order concatenation for that statement and parameter, the other parameters keep their inline values, delivery happens to exactly one execution and never to another statement.", alpha.len(), if quick {4} else {5}),
+        rule: format!("two prepared statements of 2 parameters; histories over {} actions: LONG_DATA(id 1|2, parameter 0|1|out of range, chunk \"\"|\"xy\"|\"z\"; 2000- and 12000-byte chunks), EXECUTE(bind LONG | VAR_STRING | MYSQL_TYPE_NULL | reuse; first parameter NULL), CLOSE, re-PREPARE; the client omits inline bytes for parameters with pending long data. Full tree to depth {} (thorough: depth 6 over the alphabet without the large chunks) plus BFS over model states (pending data capped at 4 bytes per parameter) with two witnesses; every interleaving of <= 7 (thorough: 9) actions over (chunk for parameter 0|1 of statement 1|2, EXECUTE 1|2) and of <= 6 (7) with CLOSE 1 / PREPARE 1 added; plus a chunk of 2*(2^24-1)+5 bytes; plus long data followed by 8..600 inline executions of the same statement; 2..1000 chunks streamed round-robin to 2-3 parameters; 2000/12000/70000-byte buffers abandoned by CLOSE or emptied by EXECUTE followed by small long data; pairs of statement ids that agree in their low 8/16/24 bits or differ only in the top bit. Oracle: the parameter is the in-order concatenation for that statement and parameter, the other parameters keep their inline values, delivery happens to exactly one execution and never to another statement.", alpha.len(), if quick {4} else {5}),
         assumptions: vec!["an empty chunk still marks the parameter as supplied by long data (MySQL semantics: the value is the empty string)".into()],
         bounds: json!({"tree_depth": if quick {4} else {5}, "core_tree_depth": if quick {0} else {6}, "alphabet": alpha.len()}),
         exhaustive: true,
